@@ -109,7 +109,10 @@ pub fn check_input(sub: &Subject, reader: &GenericDatumReader, writer: &GenericD
     let budget = 16 * input.len() as u64 + 100_000;
     dynserde::reset_work(budget);
     let mut slice: &[u8] = input;
-    let d = match guard(|| dynserde::with_ctx(&sub.node, &sub.env, false, || reader.read_deser::<dynserde::DynOutLenient>(&mut slice))) {
+    // half of the inputs read two-branch nullable unions through deserialize_option, the others
+    // through deserialize_enum (a function of the input, so that replays keep their meaning)
+    let option_style = crate::choices::fnv(input) % 2 == 0;
+    let d = match guard(|| dynserde::with_ctx(&sub.node, &sub.env, option_style, || reader.read_deser::<dynserde::DynOutLenient>(&mut slice))) {
         Ok(r) => r,
         Err(_) => {
             log.label("panic(left to C05)");
